@@ -14,7 +14,8 @@ from harness import c19_targets as TG
 ENC = ["asynq/mock_.py: patch, patch.object, _make_patch_async, _PatchAsync.__enter__/copy, _AsynqWrapper, "
        "_AsyncioWrapper, _maybe_wrap_new", "unittest.mock._patch (executed as shipped)"]
 TARGETS = ["module function", "instance method", "classmethod", "staticmethod", "plain attribute",
-           "staticmethod reached through an instance", "classmethod reached through an instance"]
+           "staticmethod reached through an instance", "classmethod reached through an instance",
+           "instance method of an instance that is == a first, distinct instance used just before"]
 REPL = ["default mock", "plain function", "bound method", "callable object", "new_callable", "non-callable",
         "staticmethod/classmethod object", "new_callable producing a non-callable",
         "callable that refuses new attributes (__slots__)"]
@@ -51,6 +52,9 @@ def run_loop(coro):
         loop.close()
 
 
+KEEP = []
+
+
 def target_ref(tk):
     """(owner object, attribute name, dotted name, getter of the callable as a user references it,
     raw getter of what is stored)"""
@@ -66,6 +70,13 @@ def target_ref(tk):
         return TG.Cls, "smeth", "harness.c19_targets.Cls.smeth", (lambda: TG.Cls(7).smeth), (lambda: TG.Cls.__dict__["smeth"])
     if tk == 6:
         return TG.Cls, "cmeth", "harness.c19_targets.Cls.cmeth", (lambda: TG.Cls(7).cmeth), (lambda: TG.Cls.__dict__["cmeth"])
+    if tk == 7:
+        def second_of_two_equal():
+            first = TG.VCls(1)
+            KEEP.append(first)
+            first.meth          # the first instance is used (and stays alive) ...
+            return TG.VCls(2).meth      # ... the callable under test belongs to the second one
+        return TG.VCls, "meth", "harness.c19_targets.VCls.meth", second_of_two_equal, (lambda: TG.VCls.__dict__["meth"])
     return TG.Cls, "linked", "harness.c19_targets.Cls.linked", (lambda: TG.Cls.linked), (lambda: TG.Cls.__dict__["linked"])
 
 
@@ -104,6 +115,7 @@ def f_patch(tk, rk, act, exc, nest, x, rv):
         return True         # a staticmethod object is a replacement for a static method
     prog.reset_globals()
     logging.disable(logging.CRITICAL)
+    del KEEP[:]
     owner, attr, dotted, get_user, get_raw = target_ref(t)
     orig_raw = get_raw()
     desc = "patch %s with %s via %s%s%s" % (TARGETS[t], REPL[r], ACT[a], ", exit by exception" if ex else "",
@@ -165,6 +177,8 @@ def f_patch(tk, rk, act, exc, nest, x, rv):
                 # the given arguments arrive (a function replacement on a method also receives the instance/class)
                 if x not in first or ("y", 2) not in first:
                     return "arguments did not reach the replacement: %r" % (first,)
+                if t == 7 and r == 1 and getattr(first[2], "t", None) != 2:
+                    return "the replacement received another (equal but distinct) instance as receiver: %r" % (first,)
             return None
 
         problem = [None]
